@@ -33,6 +33,8 @@ type Program struct {
 	repoFuncs []*ssa.Function
 	cg        *CallGraph
 	overlay   map[string][]byte
+	// InlineNotes records what the normalising inliner did (evidence).
+	InlineNotes []string
 }
 
 // ReadFile reads a repository file (module-relative path), honouring the analysis overlay.
@@ -47,6 +49,40 @@ func (p *Program) ReadFile(rel string) ([]byte, error) {
 // Load parses, type-checks and builds SSA for every package of the module in dir.
 // overlay maps absolute file names to replacement contents (used for canaries/mutants).
 func Load(dir string, goarch string, overlay map[string][]byte) (*Program, error) {
+	p, err := loadOnce(dir, goarch, overlay)
+	if err != nil || os.Getenv("VERIF_NO_INLINE") != "" || len(knownFuncs) == 0 {
+		return p, err
+	}
+	// normalise: inline calls of functions that did not exist in the pinned tree (see inline.go)
+	for round := 1; round <= 4; round++ {
+		ov, n, notes := inlineNewHelpers(p, round)
+		if n == 0 {
+			break
+		}
+		merged := map[string][]byte{}
+		for k, v := range p.overlay {
+			merged[k] = v
+		}
+		for k, v := range ov {
+			merged[k] = v
+		}
+		p2, err := loadOnce(dir, goarch, merged)
+		if err != nil {
+			p.InlineNotes = append(p.InlineNotes, "normalising inliner output did not type-check; the tree is analysed as written: "+err.Error())
+			if os.Getenv("VERIF_DEBUG_INLINE") != "" {
+				for k, v := range ov {
+					fmt.Fprintf(os.Stderr, "---- %s\n%s\n", k, v)
+				}
+			}
+			break
+		}
+		p2.InlineNotes = append(append(p2.InlineNotes, p.InlineNotes...), notes...)
+		p = p2
+	}
+	return p, nil
+}
+
+func loadOnce(dir string, goarch string, overlay map[string][]byte) (*Program, error) {
 	env := append(os.Environ(), "GOFLAGS=-mod=mod", "GOPROXY=off", "GOSUMDB=off", "GOWORK=off", "GOTOOLCHAIN=local", "CGO_ENABLED=0")
 	if goarch != "" {
 		env = append(env, "GOARCH="+goarch)
